@@ -83,6 +83,19 @@ CHECKS.update({
          True),
 })
 
+CHECKS.update({
+ "C04": ("xs+enum", "model_checking",
+         "explicit-state BFS for reachability of a panic / marker state over arbitrary word and packet-boundary sequences on the real CdpRunningValidator (from initial and non-initial start states), plus bounded-exhaustive CLI enumeration of malformed inputs x modes x options",
+         "xs: alphabet = IHW (all/no lanes), TDH x {no_data, continuation}, TDT x {done}, DDW0, CDW (2), data words with identifiers inside and just outside every valid range, in stave mode crossed with lane contents from the ALPIDE byte classes (padding only, header+trailer, empty frame, double bunch counter, APEs incl. fatal ones, 0xFF, trailer without header, busy), and packet boundaries with RDH variants (stop, page, FEE layer 0/3/5/7, data format 0/2/3/255); breadth-first over (full implementation fingerprint) per mode to depth 5 (6 thorough), in stave mode depth 3 (4) from five start states (initial, frame open, three good lanes stored, good frame processed, frame with a fatal lane processed): quick 384 465 states / 1.8 M transitions, each a real call; any panic or unreachable_unchecked marker is a violation. CLI: every catalogue fault, 22 RDH framing/field extremes at first/middle/last packet, pairs of faults, every input of length 0..3 (8 thorough) over {00,07,40,FF} and runs of 5..70 bytes, x 9 command modes (5 checks, 3 views, filtered writing) x option menu x {file, stdin}: exit status in {0,1,configured}, no signal, no 10 s timeout.",
+         "Random bytes and AddressSanitizer are outside this family (stated in DESIGN.md section 7). The stave-mode word search has no fixpoint (lane bytes accumulate): it is bounded by depth, and says so in its evidence.",
+         True),
+ "C06": ("enum", "exploration",
+         "exhaustive enumeration of order-preserving merges of per-link packet sequences; differential comparison of the per-link message lists across full run, filters, extraction and a single sequential pass",
+         "Every order-preserving merge for the shapes (3,3) and (2,2,2) (thorough: + (4,4), (3,2,2)) of per-link sequences of an inner-barrel, an outer-layer (format 0) and a middle-layer link x {all clean, all corrupted (2 variants), one corrupted link at a time} x {check all its, check all, check all its-stave with ALPIDE frames}. Each merged stream: in-process real scanner + validators for the full run and for --filter-link / --filter-fee / --filter-its-stave of every link, and on the real multi-threaded CLI (full run, physically extracted single-link file, --filter-link; every 5th merge in quick, all in thorough). Per owning link the ordered message list must equal the one of a single synchronous LinkValidator pass over that link alone, after rewriting offsets through the layout map; a filter run must report nothing owned by another link.",
+         "Streams with fatal framing errors / unknown system id and sequences whose own first packet has an RDH0 fault are excluded (DESIGN.md C06). 12-link streams are not enumerated.",
+         True),
+})
+
 NOT_YET = {
 }
 
